@@ -109,6 +109,29 @@ def is_len_of(node, name):
             and len(node.args) == 1 and isinstance(node.args[0], ast.Name) and node.args[0].id == name)
 
 
+def countup_of_while(loop):
+    """`while limit > received` / `while received < limit` (two plain names): (limit, received), else None"""
+    cp = compare_parts(loop.test)
+    if cp and isinstance(cp[0], ast.Name) and isinstance(cp[2], ast.Name):
+        if cp[1] is ast.Gt:
+            return cp[0].id, cp[2].id
+        if cp[1] is ast.Lt:
+            return cp[2].id, cp[0].id
+    return None
+
+
+def increments_of(loop, name):
+    """statements in the loop body that raise `name`: list of (stmt, amount_expr)"""
+    out = []
+    for st in loop.body:
+        for n in walk_shallow(st):
+            if isinstance(n, ast.AugAssign) and isinstance(n.target, ast.Name) and n.target.id == name:
+                out.append((n, n.value if isinstance(n.op, ast.Add) else None))
+            elif isinstance(n, ast.Assign) and any(isinstance(t, ast.Name) and t.id == name for t in n.targets):
+                out.append((n, None))
+    return out
+
+
 def decrements_of(loop, counter):
     """statements in the loop body that lower `counter`: list of (stmt, amount_expr)"""
     out = []
